@@ -1,12 +1,14 @@
 package orch
 
 import (
+	"encoding/json"
 	"fmt"
 	"os"
 	"os/exec"
 	"path/filepath"
 	"sort"
 	"strings"
+	"sync"
 	"time"
 )
 
@@ -100,6 +102,102 @@ func selftestSensitivity(e *Env, pattern string) (int, error) {
 	return 0, nil
 }
 
+// selftestDeterminism: the same job ranges are executed in separate worker
+// processes under GOMAXPROCS 1, 4 and 16, twice each; the digests of every
+// result (schedule-log hashes, statistics, violation classes) must be equal.
 func selftestDeterminism(e *Env, props []string) (int, error) {
-	return 2, fmt.Errorf("not implemented yet")
+	if len(props) == 0 {
+		props = []string{"C06", "C12", "C14", "C09"}
+	}
+	bad := 0
+	for _, prop := range props {
+		sc, err := NewScratch("det")
+		if err != nil {
+			return 2, err
+		}
+		var run func(from, to int, procs string) (string, error)
+		switch prop {
+		case "C06", "C12", "C14":
+			specs, err := e.parsimSpecs(10, 24, 2, false)
+			if err != nil {
+				sc.Remove()
+				return 2, err
+			}
+			rig, err := buildParsim(e, sc, specs, false, true)
+			if err != nil {
+				sc.Remove()
+				return 2, err
+			}
+			mode := strings.ToLower(prop)
+			run = func(from, to int, procs string) (string, error) {
+				res, err := rig.runJob(&PJob{Mode: mode, Seed: e.Seed, From: from, To: to, Env: []string{"GOMAXPROCS=" + procs}}, false, 20*time.Minute)
+				if err != nil {
+					return "", err
+				}
+				sort.Slice(res.Sigs, func(i, j int) bool { return res.Sigs[i] < res.Sigs[j] })
+				sort.Slice(res.Adjacent, func(i, j int) bool { return res.Adjacent[i] < res.Adjacent[j] })
+				res.Samples = nil
+				b, _ := json.Marshal(res)
+				return string(b), nil
+			}
+		case "C09":
+			rig, err := buildGensim(e, sc, e.gensimTexts(6, false), false)
+			if err != nil {
+				sc.Remove()
+				return 2, err
+			}
+			run = func(from, to int, procs string) (string, error) {
+				res, err := rig.runJob(&GJob{Seed: e.Seed, From: from, To: to, Env: []string{"GOMAXPROCS=" + procs}}, false, 20*time.Minute)
+				if err != nil {
+					return "", err
+				}
+				sort.Slice(res.Sigs, func(i, j int) bool { return res.Sigs[i] < res.Sigs[j] })
+				sort.Slice(res.Adjacent, func(i, j int) bool { return res.Adjacent[i] < res.Adjacent[j] })
+				res.Samples = nil
+				b, _ := json.Marshal(res)
+				return string(b), nil
+			}
+		default:
+			sc.Remove()
+			return 2, fmt.Errorf("no determinism self-test for %s", prop)
+		}
+		chunks, per := 32, 40
+		if prop == "C09" {
+			per = 6
+		}
+		diverged := 0
+		var mu sync.Mutex
+		err = ParallelDo(chunks, e.Jobs, func(i int) error {
+			var ref string
+			for rep := 0; rep < 2; rep++ {
+				for _, procs := range []string{"1", "4", "16"} {
+					got, err := run(i*per, (i+1)*per, procs)
+					if err != nil {
+						return err
+					}
+					if ref == "" {
+						ref = got
+					} else if got != ref {
+						mu.Lock()
+						diverged++
+						if diverged <= 3 {
+							fmt.Printf("%s: range [%d,%d) diverges under GOMAXPROCS=%s (rep %d)\n  %s\n  %s\n", prop, i*per, (i+1)*per, procs, rep, clipStr(ref, 400), clipStr(got, 400))
+						}
+						mu.Unlock()
+					}
+				}
+			}
+			return nil
+		})
+		sc.Remove()
+		if err != nil {
+			return 2, err
+		}
+		fmt.Printf("%s determinism: %d job ranges x %d cases x 6 executions (GOMAXPROCS 1/4/16, twice), %d divergent\n", prop, chunks, per, diverged)
+		bad += diverged
+	}
+	if bad > 0 {
+		return 1, nil
+	}
+	return 0, nil
 }
